@@ -3,7 +3,8 @@
    Vocabulary: a dimension is a list of keys; ssorted = strictly increasing w.r.t. bytes.Compare (sorted and
    duplicate-free).  intersection_gen srt true is the cursor machine of dimension.Intersection with `srt`
    standing for sort.Sort; `intersection` instantiates it with Go's insertion sort.  An index state is
-   ix_run ops for a history ops of IPut K stack count / IDelete Q (Model/Index.v); live ops is the list of
+   ix_run ops for a history ops of IPut K stack count / IDelete Q / IDrop K (IDrop = what a retention pass does
+   to a series all of whose buckets expired: deleteSegmentAndRelatedData) (Model/Index.v); live ops is the list of
    series ingested and not deleted since, computed from the history alone; sub_labels Q K = every pair of Q
    is a pair of K.  key_ok K (Proofs/IndexProofs.v): K has the shape ParseKey produces, its __name__ value has
    no '{' (C15 finding reserved-name-brace) and no tag NAME contains ':' (values may). *)
@@ -97,16 +98,17 @@ Theorem C07_names_admitted : forall s,
 Proof. exact parse_key_ok. Qed.
 Print Assumptions C07_names_admitted.
 
-(* app{a=1,u=http://x/y.z}, app{a=1}, b{a=1}; delete app{u=http://x/y.z}; query app{a=1} *)
+(* app{a=1,u=http://x/y.z}, app{a=1}, b{a=1}; delete app{u=http://x/y.z}; re-ingest; retention drops b{a=1}; query app{a=1} *)
 Example C07_selector_exact_nonvacuous :
   let k1 := parse [97;112;112;123;97;61;49;44;117;61;104;116;116;112;58;47;47;120;47;121;46;122;125] in
   let k2 := parse [97;112;112;123;97;61;49;125] in
   let k3 := parse [98;123;97;61;49;125] in
   let q := parse [97;112;112;123;117;61;104;116;116;112;58;47;47;120;47;121;46;122;125] in
-  let ops := [IPut k1 [115;49] 1; IPut k2 [115;50] 2; IPut k3 [115;51] 4; IDelete q; IPut k1 [115;49] 8] in
-  forallb (fun o => match o with IPut K _ _ | IDelete K =>
+  let ops := [IPut k1 [115;49] 1; IPut k2 [115;50] 2; IPut k3 [115;51] 4; IDelete q; IPut k1 [115;49] 8;
+              IPut k3 [115;51] 16; IDrop k3] in
+  forallb (fun o => match o with IPut K _ _ | IDelete K | IDrop K =>
      negb (has c_lbrace (app_name K)) && forallb (fun kv => negb (has c_colon (fst kv))) K end) ops = true /\
-  List.length (live ops) = 3%nat /\
+  List.length (live ops) = 2%nat /\
   ix_select_series k2 (ix_run ops) = Some [normalized k1; normalized k2] /\
   ix_get k2 (ix_run ops) = Some [([115;49], 8); ([115;50], 2)].
 Proof. vm_compute. auto. Qed.
